@@ -288,6 +288,12 @@ func (gb *gcpBalancer) UpdateClientConnState(ccs balancer.ClientConnState) error
 		gb.initializeConfig(cfg)
 	}
 
+	for sc := range gb.refreshingScRefs {
+		// Replacement SubConns must not take over with outdated addresses.
+		sc.UpdateAddresses(addrs)
+		sc.Connect()
+	}
+
 	if len(gb.scRefs) == 0 {
 		// (Re)create the pool, e.g. when previous attempts failed because of an empty address list.
 		// The lock is already held, so newSubConn() cannot be used here.
